@@ -795,3 +795,62 @@ def batch_replay_consistency(chk, prefix="C02"):
                   desc="a FAILED item of the first run carries the same error object (message, type, data, stack trace) that replay() later takes from the branch's record",
                   sample="_create_result item error vs recorded branch error")
     return eng
+
+
+def timer_loop(chk, prefix="C07"):
+    """TimerScheduler._timer_loop, one iteration with one due branch: the branch is marked PENDING (under the scheduler lock) BEFORE the
+    resubmission callback - whose first action is a blocking checkpoint refresh - runs; otherwise the branch still looks parked while it is
+    being resumed and the executor could decide to suspend the invocation in that window"""
+    class H(ExecHooks):
+        def ext_call(self, eng, st, name, args, kwargs):
+            if name == "heapq.heappop":
+                lst = args[0]
+                items = st.get(lst)["items"]
+                st.put(lst, {"__kind__": "list", "items": items[1:]})
+                return [("val", items[0], st)]
+            return ExecHooks.ext_call(self, eng, st, name, args, kwargs)
+
+        def opaque_call(self, eng, st, fn, args, kwargs):
+            if fn.name == "Event.is_set":
+                n = st.ghost.get("polls", 0)
+                st.ghost["polls"] = n + 1
+                return [("val", n >= 1, st)]  # one iteration, then shutdown
+            if fn.name == "Event.wait":
+                return [("val", False, st)]
+            if fn.name == "resubmit_callback":
+                exe = args[0]
+                st.emit("resubmit", status=st.get(exe)["_status"], exe=exe)
+                return [("val", None, st)]
+            return ExecHooks.opaque_call(self, eng, st, fn, args, kwargs)
+    eng = Engine(hooks=H())
+    eng.unroll_bound, eng.allow_cut = 3, True
+    P = eng.program
+    st = St()
+    q = "concurrency.executor.TimerScheduler._timer_loop"
+    chk.function(q, "verified for one iteration with one pending resume (loop unrolled: the iteration body has no loop-carried state besides the heap)")
+    bs_cls = P.cls(BS)
+    C = enum_sort(bs_cls)[1]
+    status0 = fresh("enum", "status0", bs_cls)
+    until = fresh("real", "suspend_until")
+    exe = st.alloc(P.cls("concurrency.models.ExecutableWithState"), {"_status": status0, "_suspend_until": mk_opt(z3.Bool("until.none"), until), "_future": st.alloc("opaque:Future", {}),
+                                                                   "executable": st.alloc("opaque:Executable", {})})
+    due = fresh("real", "resume_time")
+    pending = st.alloc("list", {"__kind__": "list", "items": ((due, 0, exe),)})
+    self_ = st.alloc(P.cls("concurrency.executor.TimerScheduler"), {"resubmit_callback": OpaqueFn("resubmit_callback"), "_pending_resumes": pending, "_lock": st.alloc("opaque:Lock", {}),
+                                                                    "_shutdown": st.alloc("opaque:Event", {}), "_schedule_counter": 1})
+    res = eng.run(P.func(q), [self_], st=st)
+    chk.paths += len(res)
+    seen = 0
+    for k, v, s in res:
+        rs = [e for e in s.trace if e.kind == "resubmit"]
+        if k != "val":
+            chk.prove(f"{prefix}.timer.pending_before_refresh", s.pc, F, desc="the timer loop does not raise")
+            continue
+        for e in rs:
+            seen += 1
+            chk.prove(f"{prefix}.timer.pending_before_refresh", s.pc, z3.And(e.status.t == C["PENDING"], z3.BoolVal(e.exe == exe)),
+                      desc="a branch handed to the resubmission callback is already PENDING (so the executor's suspend decision sees it as unfinished during the blocking refresh)",
+                      sample="_timer_loop iteration with one due branch")
+    if not seen:
+        chk.fault("timer loop: the resubmission path was not reached")
+    return eng
